@@ -37,6 +37,11 @@ pub struct StarkConfig {
     pub n_verifier_friendly_commitment_layers: Felt,
 }
 
+const MAX_LOG_N_COSETS: u64 = 16;
+const MIN_LOG_N_COSETS: u64 = 1;
+const MAX_N_QUERIES: u64 = 48;
+const MIN_N_QUERIES: u64 = 1;
+
 impl StarkConfig {
     pub fn security_bits(&self) -> Felt {
         self.n_queries * self.log_n_cosets + Felt::from(self.proof_of_work.n_bits)
@@ -49,6 +54,18 @@ impl StarkConfig {
         num_columns_second: Felt,
     ) -> Result<(), Error> {
         self.proof_of_work.validate()?;
+
+        // The blow-up exponent and the number of queries are small integers, not arbitrary field
+        // elements: bound them before they are used in the security estimate and the domains.
+        ensure!(
+            self.log_n_cosets >= MIN_LOG_N_COSETS.into()
+                && self.log_n_cosets <= MAX_LOG_N_COSETS.into(),
+            Error::OutOfBounds { min: MIN_LOG_N_COSETS, max: MAX_LOG_N_COSETS }
+        );
+        ensure!(
+            self.n_queries >= MIN_N_QUERIES.into() && self.n_queries <= MAX_N_QUERIES.into(),
+            Error::OutOfBounds { min: MIN_N_QUERIES, max: MAX_N_QUERIES }
+        );
 
         ensure!(security_bits <= self.security_bits(), Error::InsufficientSecurity);
 
@@ -67,7 +84,14 @@ impl StarkConfig {
             .validate(log_eval_domain_size, self.n_verifier_friendly_commitment_layers)?;
 
         // Validate Fri config.
-        self.fri.validate(self.log_n_cosets, self.n_verifier_friendly_commitment_layers)?;
+        let log_expected_input_degree =
+            self.fri.validate(self.log_n_cosets, self.n_verifier_friendly_commitment_layers)?;
+
+        // The FRI input layer must be the evaluation domain of the trace.
+        ensure!(
+            log_expected_input_degree == self.log_trace_domain_size,
+            Error::FriInputSizeMismatch
+        );
         Ok(())
     }
 }
@@ -91,6 +115,10 @@ pub enum Error {
     DynamicParamsMissing,
     #[error("insufficient number ofsecurity bits")]
     InsufficientSecurity,
+    #[error("value out of bounds {min} - {max}")]
+    OutOfBounds { min: u64, max: u64 },
+    #[error("fri input size does not match the evaluation domain")]
+    FriInputSizeMismatch,
 }
 
 #[cfg(not(feature = "std"))]
@@ -111,4 +139,8 @@ pub enum Error {
     DynamicParamsMissing,
     #[error("insufficient number ofsecurity bits")]
     InsufficientSecurity,
+    #[error("value out of bounds {min} - {max}")]
+    OutOfBounds { min: u64, max: u64 },
+    #[error("fri input size does not match the evaluation domain")]
+    FriInputSizeMismatch,
 }
